@@ -64,6 +64,9 @@ Browser.vos Browser.vok Browser.required_vos: Browser.v Base.vos Fields.vos SrcF
 BrowserSpec.vo BrowserSpec.glob BrowserSpec.v.beautified BrowserSpec.required_vo: BrowserSpec.v Base.vo Fields.vo SrcFacts.vo Msg.vo Cache.vo CacheSpec.vo Sim.vo Prober.vo Hostname.vo Resolver.vo Provider.vo ProviderSpec.vo Browser.vo
 BrowserSpec.vio: BrowserSpec.v Base.vio Fields.vio SrcFacts.vio Msg.vio Cache.vio CacheSpec.vio Sim.vio Prober.vio Hostname.vio Resolver.vio Provider.vio ProviderSpec.vio Browser.vio
 BrowserSpec.vos BrowserSpec.vok BrowserSpec.required_vos: BrowserSpec.v Base.vos Fields.vos SrcFacts.vos Msg.vos Cache.vos CacheSpec.vos Sim.vos Prober.vos Hostname.vos Resolver.vos Provider.vos ProviderSpec.vos Browser.vos
+BrowserProofs.vo BrowserProofs.glob BrowserProofs.v.beautified BrowserProofs.required_vo: BrowserProofs.v Base.vo Fields.vo SrcFacts.vo Msg.vo SrcDecisions.vo Cache.vo CacheSpec.vo CacheProofs.vo Sim.vo Prober.vo Resolver.vo Browser.vo
+BrowserProofs.vio: BrowserProofs.v Base.vio Fields.vio SrcFacts.vio Msg.vio SrcDecisions.vio Cache.vio CacheSpec.vio CacheProofs.vio Sim.vio Prober.vio Resolver.vio Browser.vio
+BrowserProofs.vos BrowserProofs.vok BrowserProofs.required_vos: BrowserProofs.v Base.vos Fields.vos SrcFacts.vos Msg.vos SrcDecisions.vos Cache.vos CacheSpec.vos CacheProofs.vos Sim.vos Prober.vos Resolver.vos Browser.vos
 ProviderProofs.vo ProviderProofs.glob ProviderProofs.v.beautified ProviderProofs.required_vo: ProviderProofs.v Base.vo Fields.vo SrcFacts.vo Msg.vo SrcDecisions.vo Cache.vo CacheSpec.vo CacheProofs.vo Sim.vo Prober.vo Hostname.vo HostnameProofs.vo Resolver.vo Provider.vo ProviderSpec.vo
 ProviderProofs.vio: ProviderProofs.v Base.vio Fields.vio SrcFacts.vio Msg.vio SrcDecisions.vio Cache.vio CacheSpec.vio CacheProofs.vio Sim.vio Prober.vio Hostname.vio HostnameProofs.vio Resolver.vio Provider.vio ProviderSpec.vio
 ProviderProofs.vos ProviderProofs.vok ProviderProofs.required_vos: ProviderProofs.v Base.vos Fields.vos SrcFacts.vos Msg.vos SrcDecisions.vos Cache.vos CacheSpec.vos CacheProofs.vos Sim.vos Prober.vos Hostname.vos HostnameProofs.vos Resolver.vos Provider.vos ProviderSpec.vos
@@ -88,15 +91,15 @@ Properties_C03.vos Properties_C03.vok Properties_C03.required_vos: Properties_C0
 Properties_C07.vo Properties_C07.glob Properties_C07.v.beautified Properties_C07.required_vo: Properties_C07.v Base.vo Fields.vo SrcFacts.vo Msg.vo SrcDecisions.vo Sim.vo Prober.vo ProberProofs.vo
 Properties_C07.vio: Properties_C07.v Base.vio Fields.vio SrcFacts.vio Msg.vio SrcDecisions.vio Sim.vio Prober.vio ProberProofs.vio
 Properties_C07.vos Properties_C07.vok Properties_C07.required_vos: Properties_C07.v Base.vos Fields.vos SrcFacts.vos Msg.vos SrcDecisions.vos Sim.vos Prober.vos ProberProofs.vos
-Properties_C19.vo Properties_C19.glob Properties_C19.v.beautified Properties_C19.required_vo: Properties_C19.v Base.vo Fields.vo SrcFacts.vo Msg.vo SrcDecisions.vo Cache.vo Sim.vo Browser.vo BrowserSpec.vo
-Properties_C19.vio: Properties_C19.v Base.vio Fields.vio SrcFacts.vio Msg.vio SrcDecisions.vio Cache.vio Sim.vio Browser.vio BrowserSpec.vio
-Properties_C19.vos Properties_C19.vok Properties_C19.required_vos: Properties_C19.v Base.vos Fields.vos SrcFacts.vos Msg.vos SrcDecisions.vos Cache.vos Sim.vos Browser.vos BrowserSpec.vos
-Properties_C15.vo Properties_C15.glob Properties_C15.v.beautified Properties_C15.required_vo: Properties_C15.v Base.vo Fields.vo SrcFacts.vo Msg.vo SrcDecisions.vo Cache.vo Sim.vo Browser.vo BrowserSpec.vo
-Properties_C15.vio: Properties_C15.v Base.vio Fields.vio SrcFacts.vio Msg.vio SrcDecisions.vio Cache.vio Sim.vio Browser.vio BrowserSpec.vio
-Properties_C15.vos Properties_C15.vok Properties_C15.required_vos: Properties_C15.v Base.vos Fields.vos SrcFacts.vos Msg.vos SrcDecisions.vos Cache.vos Sim.vos Browser.vos BrowserSpec.vos
-Properties_C14.vo Properties_C14.glob Properties_C14.v.beautified Properties_C14.required_vo: Properties_C14.v Base.vo Fields.vo SrcFacts.vo Msg.vo SrcDecisions.vo Cache.vo Sim.vo Browser.vo BrowserSpec.vo
-Properties_C14.vio: Properties_C14.v Base.vio Fields.vio SrcFacts.vio Msg.vio SrcDecisions.vio Cache.vio Sim.vio Browser.vio BrowserSpec.vio
-Properties_C14.vos Properties_C14.vok Properties_C14.required_vos: Properties_C14.v Base.vos Fields.vos SrcFacts.vos Msg.vos SrcDecisions.vos Cache.vos Sim.vos Browser.vos BrowserSpec.vos
+Properties_C19.vo Properties_C19.glob Properties_C19.v.beautified Properties_C19.required_vo: Properties_C19.v Base.vo Fields.vo SrcFacts.vo Msg.vo SrcDecisions.vo Cache.vo Sim.vo Browser.vo BrowserSpec.vo BrowserProofs.vo
+Properties_C19.vio: Properties_C19.v Base.vio Fields.vio SrcFacts.vio Msg.vio SrcDecisions.vio Cache.vio Sim.vio Browser.vio BrowserSpec.vio BrowserProofs.vio
+Properties_C19.vos Properties_C19.vok Properties_C19.required_vos: Properties_C19.v Base.vos Fields.vos SrcFacts.vos Msg.vos SrcDecisions.vos Cache.vos Sim.vos Browser.vos BrowserSpec.vos BrowserProofs.vos
+Properties_C15.vo Properties_C15.glob Properties_C15.v.beautified Properties_C15.required_vo: Properties_C15.v Base.vo Fields.vo SrcFacts.vo Msg.vo SrcDecisions.vo Cache.vo Sim.vo Browser.vo BrowserSpec.vo BrowserProofs.vo
+Properties_C15.vio: Properties_C15.v Base.vio Fields.vio SrcFacts.vio Msg.vio SrcDecisions.vio Cache.vio Sim.vio Browser.vio BrowserSpec.vio BrowserProofs.vio
+Properties_C15.vos Properties_C15.vok Properties_C15.required_vos: Properties_C15.v Base.vos Fields.vos SrcFacts.vos Msg.vos SrcDecisions.vos Cache.vos Sim.vos Browser.vos BrowserSpec.vos BrowserProofs.vos
+Properties_C14.vo Properties_C14.glob Properties_C14.v.beautified Properties_C14.required_vo: Properties_C14.v Base.vo Fields.vo SrcFacts.vo Msg.vo SrcDecisions.vo Cache.vo Sim.vo Browser.vo BrowserSpec.vo BrowserProofs.vo
+Properties_C14.vio: Properties_C14.v Base.vio Fields.vio SrcFacts.vio Msg.vio SrcDecisions.vio Cache.vio Sim.vio Browser.vio BrowserSpec.vio BrowserProofs.vio
+Properties_C14.vos Properties_C14.vok Properties_C14.required_vos: Properties_C14.v Base.vos Fields.vos SrcFacts.vos Msg.vos SrcDecisions.vos Cache.vos Sim.vos Browser.vos BrowserSpec.vos BrowserProofs.vos
 Properties_C13.vo Properties_C13.glob Properties_C13.v.beautified Properties_C13.required_vo: Properties_C13.v Base.vo Fields.vo SrcFacts.vo Msg.vo SrcDecisions.vo Sim.vo Prober.vo Hostname.vo Provider.vo ProviderSpec.vo ProviderProofs.vo
 Properties_C13.vio: Properties_C13.v Base.vio Fields.vio SrcFacts.vio Msg.vio SrcDecisions.vio Sim.vio Prober.vio Hostname.vio Provider.vio ProviderSpec.vio ProviderProofs.vio
 Properties_C13.vos Properties_C13.vok Properties_C13.required_vos: Properties_C13.v Base.vos Fields.vos SrcFacts.vos Msg.vos SrcDecisions.vos Sim.vos Prober.vos Hostname.vos Provider.vos ProviderSpec.vos ProviderProofs.vos
